@@ -27,8 +27,62 @@ pub fn plans(prop: Prop) -> Vec<Value> {
         }
         Prop::C12 => c12_grid(),
         Prop::C09 => intro_scenarios(),
+        Prop::C02 => call_scenarios(),
         _ => vec![],
     }
+}
+
+/// Call scenarios (C02): one service owner of version v1, one or two callers of version v2, calls
+/// pending when the owner goes away in each of the five ways (or answers late / twice), with the
+/// caller's abort before or after. 4 x 2 x 6 x 2 = 96 plans.
+fn call_scenarios() -> Vec<Value> {
+    let mut plans = Vec::new();
+    for (callee_minor, callee_legacy) in [(14u32, true), (15, false), (16, false), (20, false)] {
+        for caller_minor in [16u32, 20] {
+            for fate in ["EndShutdown", "EndTransportError", "EndEof", "EndDropTask", "EndBrokerShutdownConn", "ReplyLateTwice"] {
+                for abort_first in [false, true] {
+                    // The Sync makes the owner read its CreateServiceReply (the callers wait for that) before
+                    // it stalls; the calls then pile up unanswered in front of it.
+                    let mut owner = vec![
+                        json!(["CreateObject", 0, 0, 0, 0]),
+                        json!(["CreateService", 0, 0, 0, 0]),
+                        json!(["Sync", 0, 0, 0, 0]),
+                        json!(["Stall", 30, 0, 0, 0]),
+                    ];
+                    if fate == "ReplyLateTwice" {
+                        owner.push(json!(["Reply", 0, 0, 0, 0]));
+                        owner.push(json!(["Reply", 8, 0, 0, 0])); // an already answered call again
+                        owner.push(json!(["DestroyService", 0, 0, 0, 0]));
+                        owner.push(json!(["Sync", 0, 0, 0, 0]));
+                    } else {
+                        owner.push(json!([fate, 0, 0, 0, 0]));
+                    }
+                    let (abort_stall, rest_stall) = if abort_first { (4, 50) } else { (45, 10) };
+                    let caller = json!([
+                        ["WaitService", 0, 0, 0, 0],
+                        ["Call", 0, 0, 0, 0],
+                        ["Call", 0, 1, 0, 0],
+                        ["Stall", abort_stall, 0, 0, 0],
+                        ["Abort", 0, 0, 0, 0],
+                        ["Stall", rest_stall, 0, 0, 0],
+                        ["Call", 0, 2, 0, 0],
+                        ["Sync", 0, 0, 0, 0],
+                    ]);
+                    let bystander = json!([["WaitService", 0, 0, 0, 0], ["Call", 0, 0, 0, 0], ["Stall", 59, 0, 0, 0], ["Sync", 0, 0, 0, 0]]);
+                    let seed = 0x0c02_0000u64 + plans.len() as u64;
+                    plans.push(plan(
+                        seed,
+                        vec![
+                            actor(callee_minor, callee_legacy, false, Value::Array(owner)),
+                            actor(caller_minor, false, false, caller),
+                            actor(20, false, false, bystander),
+                        ],
+                    ));
+                }
+            }
+        }
+    }
+    plans
 }
 
 fn c11_s3() -> Vec<Value> {
